@@ -119,6 +119,8 @@ type exp struct {
 	isOwn  bool
 	ow     own
 	ver    stx.Ver
+	// own deleted/expired entry read through a filtering point lookup: "not found" is accepted as well
+	alsoMiss bool
 }
 
 func (e exp) String() string {
@@ -144,14 +146,11 @@ func filtered(e stx.Entry, filters int) bool {
 	return false
 }
 
-// get models OngoingTx.GetWithFilters: the pending write of the transaction (if any) replaces the
-// committed version before the filters are evaluated.
+// get models OngoingTx.GetWithFilters: the filters judge the entry found in the snapshot, which for a
+// key written by the transaction is a placeholder without metadata; the pending write is substituted afterwards.
 func (v *view) get(k []byte, filters int) exp {
 	if w, ok := v.own[string(k)]; ok {
-		if filtered(w.e, filters) {
-			return exp{status: stNotFound}
-		}
-		return exp{status: stFound, key: k, isOwn: true, ow: w}
+		return exp{status: stFound, key: k, isOwn: true, ow: w, alsoMiss: filtered(w.e, filters)}
 	}
 	ver := v.h.latest(k, v.upTo)
 	if ver == nil || filtered(ver.E, filters) {
@@ -160,14 +159,16 @@ func (v *view) get(k []byte, filters int) exp {
 	return exp{status: stFound, key: k, ver: *ver}
 }
 
-// getWithPrefix models OngoingTx.GetWithPrefixAndFilters: the first key under the prefix, greater
-// than neq, whose entry (the pending write of the transaction, if any) passes the filters.
+// getWithPrefix models OngoingTx.GetWithPrefixAndFilters: the first key under the prefix, greater than neq,
+// whose entry passes the filters (committed entries rejected by the filters are skipped, 3a5bcd2); a key
+// written by the transaction always passes (see get).
 func (v *view) getWithPrefix(prefix, neq []byte, filters int) exp {
 	for _, k := range v.keysWith(prefix) {
 		if len(neq) > 0 && bytes.Compare(k, neq) <= 0 {
 			continue
 		}
 		if e := v.get(k, filters); e.status == stFound {
+			e.alsoMiss = false
 			return e
 		}
 	}
@@ -325,6 +326,9 @@ func differs(r res, e exp) string {
 		return "unexpected error " + r.err
 	}
 	if r.status != e.status {
+		if e.status == stFound && e.alsoMiss && r.status == stNotFound {
+			return ""
+		}
 		return "outcome differs"
 	}
 	if e.status != stFound {
